@@ -73,6 +73,7 @@ class McsRecorder:
     def __init__(self, sig):
         self.sig = sig
         self.calls = []
+        self._steps = []
         self._undo = []
 
     def __enter__(self):
@@ -81,9 +82,21 @@ class McsRecorder:
         rec = self
         orig = optimizer.OptimizerRC2.minimal_correction_subsets
 
+        o_gv = optimizer.Optimizer.get_violated_conditional
+
+        def w_gv(self_, model, cost, ignore):
+            v = o_gv(self_, model, cost, ignore)
+            rec._steps.append(sorted(int(x) for x in v))
+            return v
+
+        optimizer.Optimizer.get_violated_conditional = w_gv
+        self._undo.append((optimizer.Optimizer, "get_violated_conditional", o_gv))
+
         def wrapped(self_, wcnf, ignore=[], deadline=None):
             hard = [list(c) for c in wcnf.hard]
+            rec._steps = []
             res = orig(self_, wcnf, ignore=ignore, deadline=deadline)
+            steps = list(rec._steps)
             try:
                 es = self_.epistemic_state
                 ids = _atom_ids(es["pool"], set(rec.sig))
@@ -95,7 +108,7 @@ class McsRecorder:
                     ok = set(_sat_worlds(cl, ids, rec.sig))
                     fal.append([k, [w for w in range(1, (1 << len(rec.sig)) + 1) if w not in ok]])
                 rec.calls.append({"engine": str(es.get("pmaxsat_solver")), "hard": hw, "fal": fal, "result": [list(map(int, x)) for x in res],
-                                  "n_soft": len(wcnf.soft), "ignore": list(ignore)})
+                                  "n_soft": len(wcnf.soft), "ignore": list(ignore), "steps": steps})
             except Exception as e:  # recorder problems must not change the run
                 rec.calls.append({"recorder_error": type(e).__name__ + ": " + str(e)[:200]})
             return res
@@ -314,6 +327,26 @@ def run(chk: Check, tier: str):
                       f"minimal correction subsets ({call['engine']}) on base {base_txt} (hard worlds {call['hard']}, ignore {call['ignore']}): code returned {call['result']}, the inclusion-minimal falsification sets are {rj['exp']}",
                       {"kind": "mcs", "config": cfg, "signature": case["sig"], "base": base_txt, "hard_formula": M.render(case["hard_formula"]) if case.get("hard_formula") else None,
                        "call": call, "expected": rj["exp"]})
+    # step-level validation of the rc2 enumeration loop against the McsEnum machine
+    from drivers import manager
+
+    straces, sidx = [], []
+    for (case, cfg, call) in midx:
+        if "steps" not in call:
+            continue
+        fam = sorted({tuple(sorted(k for k, ws in call["fal"] if w in ws)) for w in call["hard"]})
+        straces.append({"fam": [list(x) for x in fam], "steps": call["steps"], "result": [sorted(x) for x in call["result"]]})
+        sidx.append((case, cfg, call))
+    if len(straces) > (3000 if tier == "quick" else 40000):
+        pick = sorted(rng.sample(range(len(straces)), 3000 if tier == "quick" else 40000))
+        straces, sidx = [straces[i] for i in pick], [sidx[i] for i in pick]
+    for rj in manager.validate_traces(chk, straces, "mcsloop", module="Trace_McsEnum", constants={"Filter": "sorted"}, invariants=("TraceNoSuperset",)):
+        case, cfg, call = sidx[rj["reject"] - 1]
+        base_txt = [M.render_cond(c["B"], c["A"]) for c in case["base"]]
+        chk.violation(f"mcsloop|{cfg[0]}/{cfg[1]}|{';'.join(base_txt)}|hard={call['hard']}|ignore={call['ignore']}",
+                      f"enumeration loop ({call['engine']}) on base {base_txt}: models reported {call['steps']}, step #{rj.get('at')} is not a step of McsEnum (remaining unblocked sets {rj.get('remaining')})",
+                      {"kind": "mcs-loop", "config": cfg, "base": base_txt, "call": call, "model": rj})
+    chk.cov["mcs_loops_validated_stepwise"] = len(straces)
     chk.cov["mcs_calls_validated"] = len(mevents)
     chk.cov["mcs_engines"] = backends
     chk.cov["exhaustive"] = False
